@@ -50,6 +50,8 @@ def source_variant(fam, v):
     t = family_text(fam)
     if v == 0:
         return t
+    if v == 4:
+        return ""
     lines = t.splitlines(True)
     if v == 1:      # one small edit in the middle: stays strictly similar (> 0.95)
         k = len(lines) // 2
@@ -129,7 +131,10 @@ def outputs_variant(v, ec, fam):
 
 
 CELL_MD = {0: {}, 1: {"collapsed": True, "scrolled": False},
-           2: {"tags": ["a", "b"], "nested": {"k": [1, {"z": None}], "f": 1.5}, "collapsed": False}}
+           2: {"tags": ["a", "b"], "nested": {"k": [1, {"z": None}], "f": 1.5}, "collapsed": False},
+           3: {"tags": ["a", "slow", "gpu", "shared", "reviewed", "b"], "nested": {"k": [1, {"z": None}], "f": 1.5},
+               "collapsed": False},
+           4: {"tags": ["a", "shared", "b"], "nested": {"k": [1, {"z": None}], "f": 2.5}, "collapsed": True}}
 NB_MD = {0: {},
          1: {"kernelspec": {"display_name": "Python 3", "language": "python", "name": "python3"},
              "language_info": {"name": "python", "version": "3.8.1"}},
@@ -197,7 +202,7 @@ def random_abstract(r, ncells=None, minor=None):
         kind = r.choice(["code", "code", "markdown", "raw"])
         cells.append({"cid": i + 1, "fam": r.choice([1, 2, 3, 4, 5, 6, 11, 12, 13, 14, 15]), "kind": kind,
                       "src": r.choice([0, 0, 1, 2]), "outs": r.randint(0, 6) if kind == "code" else 0,
-                      "md": r.randint(0, 2), "ec": r.randint(0, 2) if kind == "code" else 0,
+                      "md": r.randint(0, 4), "ec": r.randint(0, 2) if kind == "code" else 0,
                       "att": r.randint(0, 3) if kind == "markdown" else 0})
     return {"minor": r.choice([0, 1, 2, 4, 5, 5]) if minor is None else minor, "nbmd": r.randint(0, 2), "cells": cells}
 
@@ -233,7 +238,7 @@ def random_edit(r, nb, newfams=(7, 8, 21, 22)):
         label = ("Duplicate", i)
     elif k < 0.60:
         i = r.randrange(n)
-        cells[i]["src"] = r.choice([v for v in range(4) if v != cells[i]["src"]])
+        cells[i]["src"] = r.choice([v for v in (0, 1, 1, 2, 2, 3, 4) if v != cells[i]["src"]])
         label = ("EditSource", i, cells[i]["src"])
     elif k < 0.72:
         cands = [i for i in range(n) if cells[i]["kind"] == "code"]
@@ -243,7 +248,7 @@ def random_edit(r, nb, newfams=(7, 8, 21, 22)):
             label = ("EditOutputs", i, cells[i]["outs"])
     elif k < 0.80:
         i = r.randrange(n)
-        cells[i]["md"] = r.choice([v for v in range(3) if v != cells[i]["md"]])
+        cells[i]["md"] = r.choice([v for v in range(5) if v != cells[i]["md"]])
         label = ("EditCellMeta", i, cells[i]["md"])
     elif k < 0.86:
         cands = [i for i in range(n) if cells[i]["kind"] == "code"]
